@@ -9,6 +9,7 @@ mod node;
 mod schemes;
 mod g_sess;
 mod g_pipe;
+mod g_pad;
 
 use std::io::Write;
 use util::*;
@@ -28,6 +29,7 @@ fn group_by_name(name: &str) -> Option<Box<dyn Group>> {
         "frame" => Some(Box::new(g_frame::FrameGroup)),
         "sess" => Some(Box::new(g_sess::SessGroup)),
         "pipe" => Some(Box::new(g_pipe::PipeGroup)),
+        "pad" => Some(Box::new(g_pad::PadGroup)),
         _ => None,
     }
 }
@@ -94,7 +96,25 @@ fn main() {
     }
 
     let mut progress = std::fs::File::create(format!("{out}/progress.txt")).unwrap();
+    // real-time watchdog per case: a case that neither finishes nor is caught by the virtual
+    // watchdog (huge allocation, busy loop) kills the process; the orchestrator reports the case
+    let case_started = std::sync::Arc::new(std::sync::atomic::AtomicU64::new(0));
+    {
+        let cs = case_started.clone();
+        let limit: u64 = std::env::var("VH_CASE_TIMEOUT").ok().and_then(|v| v.parse().ok()).unwrap_or(90);
+        let t0 = std::time::Instant::now();
+        std::thread::spawn(move || loop {
+            std::thread::sleep(std::time::Duration::from_millis(500));
+            let started = cs.load(std::sync::atomic::Ordering::SeqCst);
+            if started > 0 && t0.elapsed().as_secs() > started + limit {
+                eprintln!("vharness: case exceeded {limit}s of real time; aborting");
+                std::process::exit(3);
+            }
+        });
+    }
+    let t_begin = std::time::Instant::now();
     for (ci, case) in all.iter().enumerate() {
+        case_started.store(t_begin.elapsed().as_secs() + 1, std::sync::atomic::Ordering::SeqCst);
         // unbuffered: if the process dies (abort, OOM) the orchestrator finds the killing case here
         let mut p = format!("# case {ci}\n");
         for l in &case.lines { p.push_str(l); p.push('\n'); }
